@@ -375,7 +375,8 @@ class ExtraCoords(ExtraCoordsABC):
                 new_lookup_tables.append((new_lut_axes, sliced_lut))
         new_extra_coords = type(self)()
         new_extra_coords._lookup_tables = new_lookup_tables
-        new_extra_coords._dropped_tables = dropped_tables
+        # Coordinates dropped by earlier slices stay dropped.
+        new_extra_coords._dropped_tables = list(self._dropped_tables) + dropped_tables
         return new_extra_coords
 
     def _getitem_wcs(self, item):
